@@ -301,7 +301,12 @@ def _task(E: int, M: int, rounding: str, srbits: int, claim: str, timeout_s: flo
             record(CONTROL if not holds else INCONCLUSIVE, secs,
                    {**det, "control_witness": w, "real_code": desc})
         elif status == "unsat":
-            record(INCONCLUSIVE, secs, {**det, "why": "negative control came back unsat: encoding vacuous?"})
+            if claim == "always_down" and rounding == "nearest" and M == 22:
+                # one discarded bit: every inexact float32 input is an exact tie, and "add half the mask, truncate" resolves every tie towards
+                # zero - a legitimate nearest value each time, so this control is genuinely not refutable for M = 22 (always_up still is)
+                record(CONTROL, secs, {**det, "why": "not refutable for M = 22: all inexact inputs are ties and ties go towards zero (a nearest value)"})
+            else:
+                record(INCONCLUSIVE, secs, {**det, "why": "negative control came back unsat: encoding vacuous?"})
         else:
             record(INCONCLUSIVE, secs, {**det, "why": "control unknown/timeout"})
         return recs
